@@ -73,6 +73,22 @@ class SymRun:
     def uf(self, name, arity=2):
         return self.ctx.uf(name, arity)
 
+    def date(self, name, ylo=1990, yhi=2040, intraday=True):
+        from .symdate import SymTS
+        return SymTS(name, ylo, yhi, self.ctx, intraday)
+
+    def dayno(self, name, lo=0, hi=20000):
+        from .symdate import SymDay
+        return SymDay(name, lo, hi, self.ctx)
+
+    def date_lt(self, a, b):
+        """assume a < b"""
+        self.ctx.assume(a < b)
+
+    def sint(self, name, lo, hi):
+        """small symbolic Python-int look-alike (Sym over an Int atom)"""
+        return self.ctx.integer(name, lo, hi)
+
     def is_sym(self, x):
         from .sym import Sym
         return isinstance(x, Sym) and not x.is_concrete()
@@ -120,6 +136,8 @@ class SymRun:
             import z3
             r = self.ctx.check()
             verdict, m = ('cex', self.ctx.solver.model()) if r == z3.sat else ('unknown', None)
+            if verdict == 'cex' and self.cfg.get('lattice', True):
+                m = self.ctx.lattice_model(z3.BoolVal(True)) or m
         if verdict == 'proved':
             self.st['discharged'] += 1
             return True
@@ -163,7 +181,9 @@ class SymRun:
             if r != z3.sat:
                 self.st['undecided'].append(label)
                 return None
-            self._violation(label, self.ctx.solver.model(), detail)
+            m0 = self.ctx.solver.model()
+            ml = self.ctx.lattice_model(z3.BoolVal(True)) if self.cfg.get('lattice', True) else None
+            self._violation(label, ml or m0, detail)
         verdict, m = self.ctx.refute(cond)
         if verdict == 'proved':
             self.st['discharged'] += 1
@@ -285,6 +305,23 @@ class ConcRun:
 
     def is_sym(self, x):
         return False
+
+    def date(self, name, ylo=1990, yhi=2040, intraday=True):
+        import pandas as pd
+        import datetime
+        g = lambda k, dflt: int(self.inputs.get(name + k, dflt))
+        return pd.Timestamp(datetime.date.fromordinal(g('_N', datetime.date(ylo, 1, 1).toordinal()))) + pd.Timedelta(seconds=g('_s', 0))
+
+    def dayno(self, name, lo=0, hi=20000):
+        import pandas as pd
+        return pd.Timestamp('1990-01-01') + pd.Timedelta(days=int(self.inputs.get(name, lo)))
+
+    def date_lt(self, a, b):
+        if not a < b:
+            raise PathEnd('assumption-false-in-replay')
+
+    def sint(self, name, lo, hi):
+        return int(self.inputs.get(name, lo))
 
     def assume(self, c):
         if not bool(c):
